@@ -141,8 +141,12 @@ def interpret_one_center(mod, func, base_map, scalars, index_vectors=None, scrat
         for st in stmts:
             if isinstance(st, ast.For):
                 try:
-                    items = fold(st.iter)
-                except (NotConst, TypeError):
+                    if isinstance(st.iter, ast.Call) and isinstance(st.iter.func, ast.Name) and st.iter.func.id == "range":
+                        from .exprs import int_eval
+                        items = list(range(*[int(int_eval(a, dict(ivals))) for a in st.iter.args]))
+                    else:
+                        items = fold(st.iter)
+                except (NotConst, TypeError, AnalysisError):
                     raise AnalysisError(f"one-centre: loop over {norm(st.iter)}")
                 for it in items:
                     iv = dict(ivals)
